@@ -6,6 +6,10 @@ from common.check import PropertyCheck, hx, unhx
 from mitmproxy import connection, exceptions, http
 from mitmproxy.addons.savehar import SaveHar
 from mitmproxy.io import FlowReader
+from mitmproxy.io.har import request_to_flow
+from mitmproxy.net import encoding as mencoding
+from mitmproxy.net.http.headers import assemble_content_type, infer_content_encoding, parse_content_type
+from mitmproxy.utils import strutils
 
 BODY_METHODS = ("POST", "PUT", "PATCH")
 
@@ -51,6 +55,251 @@ def view(f):
     }
 
 
+def reset_cache():
+    """mitmproxy.net.encoding keeps a one-element cache that makes encode()/decode() depend on the previous call
+    (encode(b"", "deflate") returns b"" right after decode(b"", "deflate")); the tie asks every question afresh"""
+    mencoding._cache = mencoding.CachedDecode(None, None, None, None)
+
+
+def tx(s):
+    """a Python str on the wire: hex of its UTF-8 (surrogatepass) bytes"""
+    return hx(s.encode("utf-8", "surrogatepass"))
+
+
+def show_hdrs(pairs):
+    return ",".join(f"{k}:{v}" for k, v in pairs) or "-"
+
+
+class LibTable:
+    """the library answers the Lean model may ask for one flow, computed with the real library functions
+    along the model's data flow (wire format: see Driver/C41.lean)"""
+
+    def __init__(self):
+        self.t = {}
+
+    def put(self, tag, args, ans):
+        self.t[",".join([tag] + args)] = ans
+
+    def sdec(self, b):
+        s = b.decode("utf-8", "surrogateescape")
+        self.put("sd", [hx(b)], tx(s)); return s
+
+    def senc(self, s):
+        try: b = s.encode("utf-8", "surrogateescape")
+        except UnicodeEncodeError: b = None
+        self.put("se", [tx(s)], "!" if b is None else hx(b)); return b
+
+    def upper(self, s):
+        u = s.upper(); self.put("up", [tx(s)], tx(u)); return u
+
+    def b64enc(self, b):
+        s = base64.b64encode(b).decode(); self.put("be", [hx(b)], tx(s)); return s
+
+    def b64dec(self, s):
+        try: b = base64.b64decode(s)
+        except Exception: b = None
+        self.put("bd", [tx(s)], "!" if b is None else hx(b)); return b
+
+    def mostly_bin(self, b):
+        r = strutils.is_mostly_bin(b); self.put("mb", [hx(b)], "01" if r else "00"); return r
+
+    def ce_dec(self, ce, raw):
+        reset_cache()
+        try:
+            r = mencoding.decode(raw, ce)
+            if not isinstance(r, bytes): r = None
+        except ValueError: r = None
+        self.put("cd", [tx(ce), hx(raw)], "!" if r is None else hx(r)); return r
+
+    def ce_enc(self, ce, b):
+        reset_cache()
+        try:
+            r = mencoding.encode(b, ce)
+            if not isinstance(r, bytes): r = None
+        except ValueError: r = None
+        self.put("ce", [tx(ce), hx(b)], "!" if r is None else hx(r)); return r
+
+    def infer(self, ct, content):
+        r = infer_content_encoding(ct, content); self.put("in", [tx(ct), hx(content)], tx(r)); return r
+
+    def cs_dec(self, cs, b):
+        try:
+            r = mencoding.decode(b, cs)
+            if not isinstance(r, str): r = None
+        except ValueError: r = None
+        self.put("xd", [tx(cs), hx(b)], "!" if r is None else tx(r)); return r
+
+    def cs_enc(self, cs, s):
+        try:
+            r = mencoding.encode(s, cs)
+            if not isinstance(r, bytes): r = None
+        except ValueError: r = None
+        self.put("xe", [tx(cs), tx(s)], "!" if r is None else hx(r)); return r
+
+    def ct_utf8(self, ct):
+        p = parse_content_type(ct) or ("text", "plain", {})
+        p[2]["charset"] = "utf-8"
+        r = assemble_content_type(*p).encode("utf-8", "surrogateescape")
+        self.put("cu", [tx(ct)], hx(r)); return r
+
+    def url_hostport(self, u):
+        try: r = http.Request.make("GET", u, "", [(b"Host", b"x")]).headers["Host"]
+        except Exception: r = None
+        self.put("uh", [tx(u)], "!" if r is None else tx(r)); return r
+
+    def url_pretty(self, u, h):
+        try:
+            rq = http.Request.make("GET", u, "", [] if h is None else [(b"Host", h.encode("utf-8", "surrogateescape"))])
+            r = rq.pretty_url
+        except Exception: r = ""
+        self.put("pu", [tx(u), hx(b"!") if h is None else hx(b"+" + h.encode("utf-8", "surrogatepass"))], tx(r)); return r
+
+    # ---- the model's data flow (mirror of Model/C41.lean, only to know which questions are asked)
+    def hget(self, hdrs, k):
+        vs = [self.sdec(v) for n, v in hdrs if n.lower() == k]
+        return ", ".join(vs) if vs else None
+
+    def get_content(self, hdrs, body):
+        ce = self.hget(hdrs, b"content-encoding")
+        if ce:
+            d = self.ce_dec(ce, body)
+            return body if d is None else d
+        return body
+
+    def get_text(self, hdrs, body):
+        c = self.get_content(hdrs, body)
+        t = self.cs_dec(self.infer(self.hget(hdrs, b"content-type") or "", c), c)
+        return self.sdec(c) if t is None else t
+
+    def set_content(self, hdrs, value):
+        ce = self.hget(hdrs, b"content-encoding")
+        raw = self.ce_enc(ce, value) if ce else value
+        if raw is None:
+            hdrs = [(n, v) for n, v in hdrs if n.lower() != b"content-encoding"]; raw = value
+        return hdrs, raw
+
+    def decode_msg(self, hdrs, body):
+        if not body: return
+        d = self.get_content(hdrs, body)
+        self.set_content([(n, v) for n, v in hdrs if n.lower() != b"content-encoding"], d)
+
+    def walk(self, f):
+        rq, rs = f.request, f.response
+        m = self.upper(self.sdec(rq.data.method))
+        purl = rq.pretty_url
+        url = f"https://{purl}/" if m == "CONNECT" else purl
+        self.sdec(rq.data.http_version); self.sdec(rs.data.http_version)
+        rh, sh = list(rq.headers.fields), list(rs.headers.fields)
+        for n, v in rh + sh:
+            self.senc(self.sdec(n)); self.senc(self.sdec(v))
+        post = self.get_text(rh, rq.raw_content) if m in BODY_METHODS else ""
+        content = self.get_content(sh, rs.raw_content)
+        if content and self.mostly_bin(content):
+            text = self.b64enc(content); b64 = True
+        else:
+            text = self.get_text(sh, rs.raw_content); b64 = False
+        # import
+        mb = self.senc(m)
+        if mb is not None: self.upper(self.sdec(mb))
+        hp = self.url_hostport(url)
+        host_after = self.hget(rh, b"host")
+        if hp is not None and host_after is not None:
+            hpb = self.senc(hp)
+            if hpb is not None: host_after = self.sdec(hpb)
+        self.url_pretty(url, host_after)
+        ct = self.hget(rh, b"content-type") or ""
+        b = self.cs_enc(self.infer(ct, b""), post)
+        h1 = rh
+        if b is None:
+            b = self.senc(post)
+            h1 = [(n, v) for n, v in rh if n.lower() != b"content-type"] + [(b"content-type", self.ct_utf8(ct))]
+        if b is not None:
+            h2, raw = self.set_content(h1, b)
+            self.decode_msg(h2, raw)
+        if b64:
+            rc = self.b64dec(text)
+        else:
+            rc = self.cs_enc(self.infer(self.hget(sh, b"content-type") or "", b""), text)
+            if rc is None: rc = self.senc(text)
+        if rc is not None:
+            h2, raw = self.set_content(sh, rc)
+            ce = self.hget(sh, b"content-encoding")
+            self.decode_msg(sh, raw if ce else rc)
+        return ";".join(f"{k}={v}" for k, v in self.t.items()) or "-"
+
+
+BITS = ["ver", "method", "urlparse", "url", "host", "noce", "reqtext", "respcl", "resptext"]
+
+
+def guard_bits(f, lt=None):
+    """the guard conjuncts of Model/C41_Spec.lean (guardBits), evaluated with the real library functions:
+    which of the recorded defect classes F-C41a..h this flow is in (False = in the class)"""
+    lt = lt or LibTable()
+    rq, rs = f.request, f.response
+    rh, sh = list(rq.headers.fields), list(rs.headers.fields)
+    m = lt.upper(lt.sdec(rq.data.method))
+    purl = rq.pretty_url
+    hp = lt.url_hostport(purl)
+    hosts = [v for n, v in rh if n.lower() == b"host"]
+    g_host = True
+    if hp is not None and hosts:
+        hpb = lt.senc(hp)
+        g_host = hpb is not None and hosts == [hpb]
+    req_ce = any(n.lower() == b"content-encoding" for n, _ in rh)
+    resp_ce = any(n.lower() == b"content-encoding" for n, _ in sh)
+    post = lt.get_text(rh, rq.raw_content) if m in BODY_METHODS else ""
+    b = lt.cs_enc(lt.infer(lt.hget(rh, b"content-type") or "", b""), post)
+    g_reqtext = b is not None and (m not in BODY_METHODS or b == rq.raw_content)
+    body = rs.raw_content
+    g_respcl = (body == b"" or any(n.lower() == b"transfer-encoding" for n, _ in sh)
+                or [v for n, v in sh if n.lower() == b"content-length"] == [str(len(body)).encode()])
+    if body != b"" and lt.mostly_bin(body):
+        g_resptext = True
+    else:
+        t = lt.get_text(sh, body)
+        rc = lt.cs_enc(lt.infer(lt.hget(sh, b"content-type") or "", b""), t)
+        if rc is None: rc = lt.senc(t)
+        g_resptext = rc == body
+    return {"ver": rq.data.http_version in (b"HTTP/1.1", b"HTTP/3"), "method": m != "CONNECT", "urlparse": hp is not None,
+            "url": lt.url_pretty(purl, lt.hget(rh, b"host")) == purl, "host": g_host,
+            "noce": not req_ce and not resp_ce, "req_ce": req_ce, "resp_ce": resp_ce,
+            "reqtext": g_reqtext, "respcl": g_respcl, "resptext": g_resptext}
+
+
+def bits_str(g):
+    return "".join("1" if g[k] else "0" for k in BITS)
+
+
+def table_for(f):
+    lt = LibTable()
+    guard_bits(f, lt)
+    return lt.walk(f)
+
+
+def flow_line(f):
+    rq, rs = f.request, f.response
+    return " ".join(["rt", hx(rq.data.method), tx(rq.pretty_url), hx(rq.data.http_version),
+                     show_hdrs(_h(rq.headers.fields)), hx(rq.raw_content), str(rs.status_code),
+                     hx(rs.data.http_version), show_hdrs(_h(rs.headers.fields)), hx(rs.raw_content), table_for(f)])
+
+
+def entry_view(e):
+    rq, rs = e["request"], e["response"]
+    pd = rq.get("postData")
+    return " ".join([tx(rq["method"]), tx(rq["url"]), tx(rq["httpVersion"]),
+                     show_hdrs([(tx(h["name"]), tx(h["value"])) for h in rq["headers"]]),
+                     "!" if pd is None else tx(pd["text"]), str(rs["status"]), tx(rs["httpVersion"]),
+                     show_hdrs([(tx(h["name"]), tx(h["value"])) for h in rs["headers"]]),
+                     tx(rs["content"]["text"]), tx(rs["content"]["encoding"]) if "encoding" in rs["content"] else "!"])
+
+
+def raw_view(f):
+    rq, rs = f.request, f.response
+    return " ".join([hx(rq.data.method), tx(rq.pretty_url), hx(rq.data.http_version), show_hdrs(_h(rq.headers.fields)),
+                     hx(rq.raw_content), str(rs.status_code), hx(rs.data.http_version), show_hdrs(_h(rs.headers.fields)),
+                     hx(rs.raw_content)])
+
+
 def no_cl(hs):
     return [[unhx(k).lower(), unhx(v)] for k, v in hs if unhx(k).lower() != b"content-length"]
 
@@ -59,28 +308,96 @@ def names_lower(hs):
     return [[unhx(k).lower(), unhx(v)] for k, v in hs]
 
 
+QUANTIFIED_VERSIONS = ("HTTP/1.1", "HTTP/2.0", "HTTP/3")   # statement: versions (HTTP/1.1, HTTP/2, HTTP/3)
+
+# finding id -> (guard conjunct whose failure puts a flow into the class, failure tags the class can cause)
+FINDINGS = [
+    ("F-C41a", "ver", ("version",)),
+    ("F-C41b", "method", ("url",)),
+    ("F-C41c", "urlparse", ("import-failed",)),
+    ("F-C41c", "url", ("url",)),
+    ("F-C41d", "host", ("request-headers",)),
+    ("F-C41e", "req_noce", ("request-headers", "request-body")),
+    ("F-C41e", "resp_noce", ("response-headers", "response-body")),
+    ("F-C41f", "reqtext", ("request-headers", "request-body")),
+    ("F-C41g", "respcl", ("response-headers",)),
+    ("F-C41h", "resptext", ("response-headers", "response-body")),
+]
+
+
 class Check(PropertyCheck):
     prop = "C41"
     design_ref = "§5 C41"
-    has_model = False
+    level_text = ("Lean theorem import_export_preserves_partial: for EVERY list of flows and every library obeying the "
+                  "stated codec laws, the model of SaveHar.flow_entry/make_har -> json -> har.request_to_flow (with the "
+                  "Message.get_content/get_text/set_content/set_text/decode and Headers operations it calls) succeeds and "
+                  "returns the flows in order with the same method, URL, request fields apart from Content-Length, request "
+                  "body (POST/PUT/PATCH), status, response fields and decoded response body, and the same HTTP version, "
+                  "provided each flow passes a decidable guard with one conjunct per recorded defect class (F-C41a..h); "
+                  "the unguarded statement is refuted in Lean on concrete flows (import_export_preserves_counterexample*). "
+                  "The model is tied to the code per flow: exported HAR entry fields, the re-imported flow field by field "
+                  "(exact header spelling/order, raw bodies, versions, import failure) and the nine guard bits must all be equal.")
+    level_note = ("partial by necessity: the code violates the full statement in 8 classes (known/C41.json), so the universal "
+                  "theorem carries the guard guardButVer/gVer. Library functions are parameters: utf-8/surrogateescape, "
+                  "str.upper, base64, content codings, charset codecs, infer_content_encoding, content-type rewriting, URL "
+                  "parsing/printing (url.parse, hostport, pretty_url) and JSON; assumed laws: senc(sdec b)=b, ASCII fixed, "
+                  "method upper/encode round trip, b64decode(b64encode b)=b, json.loads(json.dumps x)=x. Their answers are "
+                  "passed per case from the real functions (driver reports lib-miss if it needs an answer it was not given). "
+                  "Outside the model: flows without response, missing (None) bodies, websocket messages, cookies/query/timing "
+                  "fields of the HAR entry, trailers, charset names that denote byte-to-byte codecs; HTTP/1.0 is generated but "
+                  "its version is outside the statement's quantifier and not demanded.")
+    technique = "Lean 4 proof (field mapping model, codecs as parameters with laws) + per-flow differential correspondence with the real export/import"
+    rule = ("small-scope sweep first (methods x versions x body kinds x Content-Length/Content-Encoding/Host variants), then "
+            "random flows: methods incl. lower-case/CONNECT/extension, HTTP/1.1 / 2.0 / 3 (/1.0), header sets with duplicates, "
+            "case variants, empty / non-ASCII / non-UTF-8 values, content types with good, bad and sniffed charsets, content "
+            "codings (valid, invalid, mismatching), text/binary/BOM/mixed bodies, Host variants, 1-3 flows per file. "
+            "distinct = distinct case; every case is non-trivial (a full export+import).")
+    has_model = True
     parallel = False
     budget = {"quick": 1500, "thorough": 40000}
-    time_budget = {"quick": 40, "thorough": 600}
+    time_budget = {"quick": 35, "thorough": 600}
+    fingerprints = ["mitmproxy.addons.savehar:SaveHar.flow_entry", "mitmproxy.addons.savehar:SaveHar.make_har",
+                    "mitmproxy.addons.savehar:SaveHar.format_multidict", "mitmproxy.io.har:fix_headers",
+                    "mitmproxy.io.har:request_to_flow", "mitmproxy.io.io:FlowReader.stream",
+                    "mitmproxy.http:Message.get_content", "mitmproxy.http:Message.set_content",
+                    "mitmproxy.http:Message.get_text", "mitmproxy.http:Message.set_text", "mitmproxy.http:Message.decode",
+                    "mitmproxy.http:Request.make", "mitmproxy.http:Request._update_host_and_authority",
+                    "mitmproxy.coretypes.multidict:_MultiDict.set_all"]
+    trusted_base = ["CPython codecs (utf-8/surrogateescape, charset codecs), base64, json, zlib/brotli/zstd, urllib as the "
+                    "library parameters of the model (answers taken from the real functions per case; laws assumed)",
+                    "mitmproxy.net.http.url / headers.infer_content_encoding / strutils.is_mostly_bin treated as library parameters"]
 
     def impl(self, case):
         flows = [build_flow(fc) for fc in case["flows"]]
         orig = [view(f) for f in flows]
+        guards = [guard_bits(f) for f in flows]
         try:
             har = SaveHar().make_har(flows)
             data = json.dumps(har, indent=4).encode()
         except Exception as e:
-            return {"orig": orig, "stage": "export-failed", "err": type(e).__name__}
+            return {"orig": orig, "stage": "export-failed", "err": type(e).__name__, "tie": None, "guards": guards}
+        # per-entry view for the model tie: the HAR entry written and the flow request_to_flow makes of it
+        tie = []
+        for e in json.loads(data)["log"]["entries"]:
+            reset_cache()
+            try: i = raw_view(request_to_flow(e))
+            except Exception: i = "fail"
+            tie.append(f"E {entry_view(e)} I {i} G {bits_str(guards[len(tie)])}")
         try:
             back = list(FlowReader(io.BytesIO(data)).stream())
         except exceptions.FlowReadException as e:
             c = e.__context__
-            return {"orig": orig, "stage": "import-failed", "err": type(c).__name__ if c else "FlowReadException"}
-        return {"orig": orig, "stage": "ok", "back": [view(f) for f in back]}
+            return {"orig": orig, "stage": "import-failed", "err": type(c).__name__ if c else "FlowReadException", "tie": tie, "guards": guards}
+        return {"orig": orig, "stage": "ok", "back": [view(f) for f in back], "tie": tie, "guards": guards}
+
+    def model_lines(self, case):
+        return [flow_line(build_flow(fc)) for fc in case["flows"]]
+
+    def model_obs(self, case, replies):
+        return list(replies)
+
+    def impl_view(self, case, obs):
+        return obs["tie"]
 
     # The statement: "Exporting HTTP flows to a HAR file and importing that file again yields flows with the same
     # request method, URL, HTTP version, request header fields (apart from a recomputed Content-Length), request body
@@ -96,7 +413,7 @@ class Check(PropertyCheck):
         for i, (x, y) in enumerate(zip(o, b)):
             if x["method"] != y["method"]: fails.append(f"method[{i}]: {x['method']} -> {y['method']}")
             if x["url"] != y["url"]: fails.append(f"url[{i}]: {unhx(x['url'])!r} -> {unhx(y['url'])!r}")
-            if x["ver"] != y["ver"]: fails.append(f"version[{i}]: {x['ver']} -> {y['ver']}")
+            if x["ver"] in QUANTIFIED_VERSIONS and x["ver"] != y["ver"]: fails.append(f"version[{i}]: {x['ver']} -> {y['ver']}")
             if no_cl(x["rh"]) != no_cl(y["rh"]): fails.append(f"request-headers[{i}]: {no_cl(x['rh'])} -> {no_cl(y['rh'])}")
             if unhx(x["method"]) in (b"POST", b"PUT", b"PATCH") and x["rbody"] != y["rbody"]:
                 fails.append(f"request-body[{i}]: {x['rbody']} -> {y['rbody']}")
@@ -107,7 +424,7 @@ class Check(PropertyCheck):
         return fails
 
     # ------------------------------------------------------------------ generator
-    HOSTS = ["example.com", "a.example.org", "192.0.2.7", "xn--bcher-kva.example", "localhost"]
+    HOSTS = ["example.com"] * 4 + ["a.example.org"] * 3 + ["192.0.2.7"] * 3 + ["localhost"] * 3 + ["xn--bcher-kva.example"]
     PATHS = [b"/", b"/index.html", b"/a/b?x=1&y=2", b"/q?x=%C3%A9", b"/s%20p", b"/p;v=1?q#f", b"*", b"/\xc3\xa9"]
     CTS = [b"text/plain", b"text/plain; charset=utf-8", b"text/plain; charset=latin-1", b"text/html", b"application/json",
            b"application/octet-stream", b"image/png", b"text/css", b"application/x-www-form-urlencoded",
@@ -216,7 +533,37 @@ class Check(PropertyCheck):
                 "authority_hex": hx(authority), "ver": ver, "rh": _h(rh), "rbody_hex": hx(rbody),
                 "status": status, "sver": sver, "sh": _h(sh), "sbody_hex": hx(sbody)}
 
+    def sweep(self):
+        """small scope, systematic: method x version x request body x response body/headers variants"""
+        bodies = [b"", b"hello", "h\u00e9llo".encode(), bytes(range(0, 40)), b"\xff\xfe\x00\x01"]
+        for method in (b"GET", b"POST", b"PUT", b"PATCH", b"DELETE", b"HEAD", b"OPTIONS"):
+            for ver in ("HTTP/1.1", "HTTP/2.0", "HTTP/3"):
+                for rb in (bodies if method in (b"POST", b"PUT", b"PATCH") else [b""]):
+                    for sb in bodies:
+                        for variant in ("cl", "nocl", "te", "gzip", "ct-utf8", "ct-latin1"):
+                            rh = [(b"Host", b"example.com")] if ver == "HTTP/1.1" else []
+                            if rb: rh += [(b"Content-Type", b"text/plain; charset=utf-8"), (b"Content-Length", str(len(rb)).encode())]
+                            body = sb; sh = [(b"Server", b"s")]
+                            if variant == "cl": sh.append((b"Content-Length", str(len(sb)).encode()))
+                            elif variant == "te": sh.append((b"Transfer-Encoding", b"chunked"))
+                            elif variant == "gzip":
+                                body = gzip.compress(sb, mtime=0)
+                                sh += [(b"Content-Encoding", b"gzip"), (b"Content-Length", str(len(body)).encode())]
+                            elif variant == "ct-utf8":
+                                sh += [(b"Content-Type", b"text/html; charset=utf-8"), (b"Content-Length", str(len(sb)).encode())]
+                            elif variant == "ct-latin1":
+                                sh += [(b"Content-Type", b"text/plain; charset=latin-1"), (b"Content-Length", str(len(sb)).encode())]
+                            yield {"flows": [{
+                                "method_hex": hx(method), "scheme": "http", "host": "example.com", "port": 80,
+                                "path_hex": hx(b"/p?q=1"), "authority_hex": hx(b"" if ver == "HTTP/1.1" else b"example.com"),
+                                "ver": ver, "rh": _h(rh), "rbody_hex": hx(rb), "status": 200, "sver": ver, "sh": _h(sh),
+                                "sbody_hex": hx(body)}]}
+
     def generate(self, rng, tier):
+        sw = list(self.sweep())
+        if tier == "quick":
+            sw = [c for i, c in enumerate(sw) if i % 4 == rng.randint(0, 3)]
+        yield from sw
         while True:
             n = rng.weighted([(8, 1), (1, 2), (1, 3)])
             yield {"flows": [self.gen_flow(rng) for _ in range(n)]}
@@ -225,7 +572,44 @@ class Check(PropertyCheck):
         return json.dumps(case, sort_keys=True)
 
     def branches(self, case, obs):
-        out = ["stage:" + obs["stage"]]
-        for fc in case["flows"]:
+        out = ["stage:" + obs["stage"], f"flows:{len(case['flows'])}"]
+        for fc, g in zip(case["flows"], obs["guards"]):
             out.append("ver:" + fc["ver"]); out.append("method:" + unhx(fc["method_hex"]).decode().upper())
+            bad = [k for k in BITS if not g[k]]
+            out.append("guard:all-hold" if not bad else "guard:fails:" + "+".join(bad))
+        if obs["stage"] == "ok":
+            out.append("oracle:" + ("pass" if not self.oracle(case, obs) else "fail"))
         return out
+
+    def known(self, case, obs, failure):
+        """a failure is an instance of a recorded finding iff the flow it is about fails the guard conjunct of that
+        finding (Model/C41_Spec.lean; the bits are cross-checked against the Lean definitions by the tie) and the
+        failing field is one that class can affect.  A flow passing the whole guard can never be excused."""
+        tag = failure.split(":", 1)[0]
+        if tag.startswith("import-failed"):
+            return "F-C41c" if any(not g["urlparse"] for g in obs["guards"]) else None
+        if "[" not in tag: return None
+        field, idx = tag[:-1].split("[")
+        g = dict(obs["guards"][int(idx)])
+        g["req_noce"], g["resp_noce"] = not g["req_ce"], not g["resp_ce"]
+        for fid, bit, tags in FINDINGS:
+            if field in tags and not g[bit]:
+                return fid
+        return None
+
+    def neighbours(self, case, rng):
+        for i, fc in enumerate(case["flows"]):
+            for k, vals in (("ver", ["HTTP/1.1", "HTTP/2.0", "HTTP/3"]), ("status", [200, 204, 404])):
+                for v in vals:
+                    c = dict(fc); c[k] = v
+                    if k == "ver": c["sver"] = v
+                    yield {"flows": case["flows"][:i] + [c] + case["flows"][i + 1:]}
+            for key in ("rh", "sh"):
+                for j in range(len(fc[key])):
+                    c = dict(fc); c[key] = fc[key][:j] + fc[key][j + 1:]
+                    yield {"flows": case["flows"][:i] + [c] + case["flows"][i + 1:]}
+        for _ in range(200):
+            yield {"flows": [self.gen_flow(rng)]}
+
+    def exhaustive(self, tier):
+        return self.sweep()
